@@ -250,6 +250,8 @@ class fsIndex:
             try:
                 smallest_suffix = tree.minKey(key[6:])
             except ValueError:  # 'empty tree' (no suffix >= arg)
+                if smallest_prefix == b'\xff' * 6:
+                    raise  # there is no later prefix
                 next_prefix = prefix_plus_one(smallest_prefix)
                 smallest_prefix = self._data.minKey(next_prefix)
                 tree = self._data[smallest_prefix]
@@ -275,6 +277,8 @@ class fsIndex:
             try:
                 biggest_suffix = tree.maxKey(key[6:])
             except ValueError:  # 'empty tree' (no suffix <= arg)
+                if biggest_prefix == b'\x00' * 6:
+                    raise  # there is no earlier prefix
                 next_prefix = prefix_minus_one(biggest_prefix)
                 biggest_prefix = self._data.maxKey(next_prefix)
                 tree = self._data[biggest_prefix]
